@@ -183,6 +183,8 @@ pub enum BCall {
 pub enum Init {
     /// `Enr::builder()` + calls + `build(keys[0])`
     Builder { calls: Vec<BCall> },
+    /// the same `Builder` value used twice: `build(keys[first])` (result dropped), then `build(keys[0])`
+    BuilderReuse { calls: Vec<BCall>, first: usize },
     /// a record signed by the harness with keys[0] (public key and id are added by the harness),
     /// encoded by the reference encoder and handed to `decode`
     Decoded {
@@ -204,6 +206,10 @@ pub struct History {
     pub ops: Vec<Op>,
     /// fail the n-th (1-based) signing call
     pub fault_at: Option<usize>,
+    /// CombinedKey only: indices of keys that use the *other* variant (cross-scheme signer).
+    /// Outside C05's domain; used by C06/C03/C09, whose statements hold for every update call.
+    #[serde(default)]
+    pub alt_keys: Vec<usize>,
 }
 
 pub fn case_hash<T: std::hash::Hash>(t: &T) -> u64 {
